@@ -95,7 +95,7 @@ CLAIMED = {
    technique='Coq model + unfolding theorems + agreement decider + differential correspondence',
    ref='6 C07'),
  "C17": dict(
-   text="Proved in Coq for every document, base url, oracle tables and option setting (closed under the global context): each link yielded by links_from_html differs from the (canonicalized) base, comes from an href of the document accepted by should_follow_href, is that href when it has a protocol and urljoin(base, href) otherwise, is accepted by is_url(tld-aware, http(s) only) — hence is an absolute http(s) url — and is exactly canonicalize_url of the resolved href when canonicalize=True; with unique=True the output has no duplicates; the str patterns have the same AST and flags as their bytes twins (re.ASCII; pinned). PARTIAL: that urls_from_html yields the same urls for a str document and its utf-8 bytes, one per anchor tag (three quoting styles) outside script blocks in document order, stripped and unescaped, is decided over a document grammar (anchors, scripts, entities, non-ASCII, look-alike tags) and by model-vs-implementation correspondence for str and bytes.",
+   text="Proved in Coq for every document, base url, oracle tables and option setting (closed under the global context): each link yielded by links_from_html differs from the (canonicalized) base, comes from an href of the document accepted by should_follow_href, is that href when it carries its own scheme and urljoin(base, href) otherwise (scheme-relative '//host' hrefs included), is accepted by is_url(tld-aware, http(s) only) — hence is an absolute http(s) url — and is exactly canonicalize_url of the resolved href when canonicalize=True; with unique=True the output has no duplicates; the str patterns have the same AST and flags as their bytes twins (re.ASCII; pinned). PARTIAL: that urls_from_html yields the same urls for a str document and its utf-8 bytes, one per anchor tag (three quoting styles) outside script blocks in document order, stripped and unescaped, is decided over a document grammar (anchors, scripts, entities, non-ASCII, look-alike tags) and by model-vs-implementation correspondence for str and bytes.",
    note="Trusted: Coq kernel, translator (four HTML regex ASTs), extraction, driver, harness; html.unescape as an oracle table; utf-8 decoding model (leaf correspondence). One genuine defect repaired (str patterns were unicode-aware, bytes twins not).",
    technique="Coq proof of the filter chain (by induction over the hrefs) + document-grammar decider + differential correspondence",
    ref="6 C17"),
